@@ -244,6 +244,8 @@ def update_connectivity(
     # setting the dtype explicitly, and adding the _FillValue attribute,
     # xarray will cooperate.
     include_row = ~numpy.ma.getmask(row_indexes)
+    # References to elements that have been dropped become missing values.
+    column_values = numpy.ma.filled(column_values, fill_value)
     raw_values = numpy.array([
         [
             column_values[item] if item is not numpy.ma.masked else fill_value
